@@ -1,33 +1,44 @@
 (* Correspondence and oracle for C18, evaluated by vm_compute on cases written by the harness.
 
-   A case is one real App.Run with one component carrying one tagged field (value / prefix tag,
-   possibly with #{} expressions, ${} placeholders, a validate argument), observed by processors
+   A case is one real App.Run with one component carrying one or several tagged fields (value /
+   prefix tags, possibly with #{} expressions, ${} placeholders, a validate argument; the component may
+   itself be a post processor of any ordering class), observed by processors
    at Priority Order 5 (after ${}), 9 (after #{}), 17 (after binding) and by the field's final
    value and Run's outcome.  Oracles handed over by the driver: the result of evaluating each
-   expression text directly with expr-lang (cevals) and the validator's verdict on the final field
-   value under the tag's constraints, called directly (cverdict). *)
+   expression text directly with expr-lang (fevals, per field) and the validator's verdict on the final field
+   value under the tag's constraints, called directly (fverdict). *)
 From Coq Require Import List NArith ZArith Bool Arith.
 From IocVerif Require Import Model.Sorter Model.Strconv Model.Placeholder Model.Pipeline.
 Import ListNotations.
 
+(* one tagged field of the component *)
+Record fld := mkFld {
+  fkind : nat;                          (* 0 value tag, 1 prefix tag *)
+  ftagstr : bytes;                      (* TagStr as observed before the ${} processor *)
+  frequired : bool;
+  fvalidate : bool;
+  fevals : list (bytes * res cval);     (* oracle: expr-lang on the expression text *)
+  fftype : nat;                         (* field type: 0 any 1 string 2 int 3 float64 4 bool 9 other (decode not modelled) *)
+  fverdict : bool;                      (* oracle: validator on the final field value *)
+  fexpr : option bytes;                 (* generator: the expression text after substitution, when the tag is one #{...} *)
+  fobs_q : option bytes;                (* TagVal after ${}   (None: not reached) *)
+  fobs_e : option bytes;                (* TagVal after #{} *)
+  fobs_bound : bool;                    (* the observer after binding was reached *)
+  fobs_field : option cval              (* final field value (None: not comparable) *)
+}.
+
+(* A case: ONE component with one or several tagged fields.  The component may be a post processor
+   itself (an eager one is participant id_holder of cfacts: class / Order() read from the value) or
+   a lazy component nobody asks for (ccreated = false). *)
 Record case := mkCase {
   cid : nat;
-  ckind : nat;                          (* 0 value tag, 1 prefix tag *)
-  ctagstr : bytes;                      (* TagStr as observed before the ${} processor *)
-  crequired : bool;
-  cvalidate : bool;
   ccfg : list (bytes * cval);
-  cevals : list (bytes * res cval);     (* oracle: expr-lang on the expression text *)
-  cftype : nat;                         (* field type: 0 any 1 string 2 int 3 float64 4 bool 9 other (decode not modelled) *)
-  cverdict : bool;                      (* oracle: validator on the final field value *)
   cfacts : list participant;            (* class / Order() of the registered processors, read this run *)
-  cexpr : option bytes;                 (* generator: the expression text after substitution, when the tag is one #{...} *)
-  cobs_q : option bytes;                (* TagVal after ${}   (None: not reached) *)
-  cobs_e : option bytes;                (* TagVal after #{} *)
-  cobs_bound : bool;                    (* the observer after binding was reached *)
-  cobs_field : option cval;             (* final field value (None: not comparable) *)
-  cobs_err : nat;                       (* 0 Run ok, 1 error, 2 panic, 3 hang *)
-  cfix : bool                           (* the ${} callback of the tree under test: true = repair D-C17g (facts probe, c18.py) *)
+  cfix : bool;                          (* the ${} callback of the tree under test: true = repair D-C17g (facts probe, c18.py) *)
+  ccreated : bool;                      (* start-up creates the component *)
+  cseq : option (list nat);             (* probe of the running code: the ids its sorted processor sequence places before the holder *)
+  cflds : list fld;
+  cobs_err : nat                        (* 0 Run ok, 1 error, 2 panic, 3 hang *)
 }.
 
 Fixpoint evals_get (k : bytes) (t : list (bytes * res cval)) : res cval :=
@@ -104,15 +115,25 @@ Definition decode_ft (ft : nat) (v : cval) : res cval :=
 
 (* ---- model vs implementation ------------------------------------------------------------ *)
 
-Definition init_state (c : case) : pstate :=
-  mkPState (match ckind c with 0%nat => TValue | _ => TPrefix end)
-           (ctagstr c) (ctagstr c) (crequired c) (cvalidate c) None.
+Definition init_state (f : fld) : pstate :=
+  mkPState (match fkind f with 0%nat => TValue | _ => TPrefix end)
+           (ftagstr f) (ftagstr f) (frequired f) (fvalidate f) None.
 
 Definition m_cfg (c : case) := cfg_of (ccfg c).
-Definition m_eval (c : case) := fun e => evals_get e (cevals c).
-Definition m_decode (c : case) := decode_ft (cftype c).
-Definition m_verdict (c : case) := fun _ : option cval => cverdict c.
+Definition m_eval (f : fld) := fun e => evals_get e (fevals f).
+Definition m_decode (f : fld) := decode_ft (fftype f).
+Definition m_verdict (f : fld) := fun _ : option cval => fverdict f.
 Definition m_budget : option nat := Some repo_budget.
+
+Definition m_prop (f : fld) : cprop := mkCProp (m_eval f) (m_decode f) (m_verdict f) (init_state f).
+Definition m_props (c : case) : list cprop := map m_prop (cflds c).
+
+(* the processors active when the component is created (Model/Pipeline.v active_order) *)
+Definition m_active (c : case) : list nat :=
+  if ccreated c then active_order (cfacts c) else [].
+
+Definition m_run (c : case) (order : list nat) : cres :=
+  run_component (cfix c) (m_cfg c) m_budget order (m_props c).
 
 Definition opt_bytes_eqb (a b : option bytes) : bool :=
   match a, b with
@@ -135,62 +156,106 @@ Fixpoint num_norm_deep (v : cval) : cval :=
   | _ => v
   end.
 
-Definition field_matches (c : case) (f : option cval) : bool :=
-  match cobs_field c with
+Definition field_matches (f : fld) (v : option cval) : bool :=
+  match fobs_field f with
   | None => true                                  (* not comparable for this field type *)
   | Some o =>
-    match f with
-    | Some v => if Nat.eqb (cftype c) 9 then true else cval_eqb v o
+    match v with
+    | Some x => if Nat.eqb (fftype f) 9 then true else cval_eqb x o
     | None => true                                (* untouched: the zero value, not compared *)
     end
   end.
 
+(* the part of the active sequence in front of observer k (None: the observer is not active) *)
+Fixpoint upto (k : nat) (l : list nat) : option (list nat) :=
+  match l with
+  | [] => None
+  | x :: r => if Nat.eqb x k then Some [] else option_map (cons x) (upto k r)
+  end.
+
+(* what the observer k sees: the properties as the stages in front of it leave them; nothing when it
+   is not active or start-up failed before it was reached *)
+Definition states_at (c : case) (k : nat) : option (list cprop) :=
+  match upto k (m_active c) with
+  | None => None
+  | Some pre => match m_run c pre with COk ps => Some ps | CErr _ => None end
+  end.
+
+Fixpoint all2 {A B} (f : A -> B -> bool) (a : list A) (b : list B) : bool :=
+  match a, b with
+  | [], [] => true
+  | x :: a', y :: b' => f x y && all2 f a' b'
+  | _, _ => false
+  end.
+
+Definition obs_text_ok (c : case) (k : nat) (obs : fld -> option bytes) : bool :=
+  match states_at c k with
+  | Some ps => all2 (fun f p => opt_bytes_eqb (obs f) (Some (ps_tagval (cp_state p)))) (cflds c) ps
+  | None => forallb (fun f => match obs f with None => true | Some _ => false end) (cflds c)
+  end.
+
+Definition obs_quote : nat := 21.      (* observer ids: Priority Order 5 (after ${}), 9 (after #{}), 17 (after binding) *)
+Definition obs_expr : nat := 22.
+Definition obs_bound : nat := 23.
+
+Fixpoint mem_nat (x : nat) (l : list nat) : bool :=
+  match l with [] => false | y :: r => Nat.eqb x y || mem_nat x r end.
+Definition same_ids (a b : list nat) : bool :=
+  forallb (fun x => mem_nat x b) a && forallb (fun x => mem_nat x a) b.
+
 Definition check_case (c : case) : bool :=
-  let st0 := init_state c in
-  let q := stage_quote (cfix c) (m_cfg c) m_budget st0 in
-  let qobs_ok :=
-    match q with
-    | POk s1 => opt_bytes_eqb (Some (ps_tagval s1)) (cobs_q c)
-    | PErr _ => match cobs_q c with None => true | Some _ => false end
-    end in
-  let eobs_ok :=
-    match q with
-    | POk s1 =>
-      match stage_expr m_budget (m_eval c) s1 with
-      | POk s2 => opt_bytes_eqb (Some (ps_tagval s2)) (cobs_e c)
-      | PErr _ => match cobs_e c with None => true | Some _ => false end
-      end
-    | PErr _ => match cobs_e c with None => true | Some _ => false end
-    end in
-  qobs_ok && eobs_ok &&
-  match run_pipeline (cfix c) (m_cfg c) m_budget (m_eval c) (m_decode c) (m_verdict c) (cfacts c) st0 with
-  | POk st => Nat.eqb (cobs_err c) 0 && cobs_bound c && field_matches c (ps_field st)
-  | PErr EValidate => Nat.eqb (cobs_err c) 1 && cobs_bound c
-  | PErr EPanicked => Nat.eqb (cobs_err c) 2
-  | PErr EBind => Nat.eqb (cobs_err c) 1 && negb (cobs_bound c)
-                  && match cobs_e c with Some _ => true | None => false end
-  | PErr _ => Nat.eqb (cobs_err c) 1 && negb (cobs_bound c)
+  obs_text_ok c obs_quote fobs_q && obs_text_ok c obs_expr fobs_e &&
+  (let b := match states_at c obs_bound with Some _ => true | None => false end in
+   forallb (fun f => Bool.eqb (fobs_bound f) b) (cflds c)) &&
+  (* the model's active list is the one the running code's sorted sequence shows (ties inside a class keep no order) *)
+  match cseq c with Some s => same_ids (m_active c) s | None => true end &&
+  match m_run c (m_active c) with
+  | COk ps => Nat.eqb (cobs_err c) 0 && all2 (fun f p => field_matches f (ps_field (cp_state p))) (cflds c) ps
+  | CErr EPanicked => Nat.eqb (cobs_err c) 2
+  | CErr _ => Nat.eqb (cobs_err c) 1
   end.
 
 (* ---- the property on the implementation's observation ---------------------------------- *)
 
 Definition hash_open : bytes := [b_hash; b_lbrace].
 
+Definition violating (f : fld) : bool := fvalidate f && negb (fverdict f).
+
+(* a field that may legitimately fail start-up: its bound value violates its constraints, its expression does not
+   evaluate, or the expression's result does not fit the field's type *)
+Definition may_fail (f : fld) : bool :=
+  violating f ||
+  match fexpr f with
+  | Some u => match evals_get u (fevals f) with
+              | Ok v => match m_decode f v with Ok _ => false | _ => true end
+              | _ => true
+              end
+  | None => false
+  end.
+
+(* start-up of the component may legitimately fail because of ANOTHER field: one that may fail by the tables above, or a
+   field without expression tables (a literal / placeholder / prefix value) whose binding did not complete - whether that
+   binding had to succeed is the model's business (check_case), not this oracle's.  A component with one field has no such
+   sibling: the demand below is as strict as it was *)
+Definition excused (c : case) : bool :=
+  existsb may_fail (cflds c) ||
+  existsb (fun g => match fexpr g with None => negb (fobs_bound g) | Some _ => false end) (cflds c).
+
 (* the literal reading: the field receives the expression's result (numbers by value) *)
-Definition expr_oracle (c : case) : bool :=
-  match cexpr c with
+Definition expr_oracle (c : case) (f : fld) : bool :=
+  match fexpr f with
   | None => true
   | Some u =>
     (* the placeholders were substituted before the expression was looked at *)
-    opt_bytes_eqb (cobs_q c) (Some (hash_open ++ u ++ [b_rbrace])) &&
-    match evals_get u (cevals c) with
+    opt_bytes_eqb (fobs_q f) (Some (hash_open ++ u ++ [b_rbrace])) &&
+    match evals_get u (fevals f) with
     | Ok v =>
-      match m_decode c v with
-      | Ok f =>
-        if cvalidate c && negb (cverdict c) then true
+      match m_decode f v with
+      | Ok x =>
+        if excused c then true
         else Nat.eqb (cobs_err c) 0 &&
-             match cobs_field c with
-             | Some o => if Nat.eqb (cftype c) 9 then true else cval_eqb (num_norm_deep f) (num_norm_deep o)
+             match fobs_field f with
+             | Some o => if Nat.eqb (fftype f) 9 then true else cval_eqb (num_norm_deep x) (num_norm_deep o)
              | None => true
              end
       | _ => true          (* the result does not fit the field type: any failure is acceptable *)
@@ -199,19 +264,27 @@ Definition expr_oracle (c : case) : bool :=
     end
   end.
 
-(* validation fails start-up exactly when the bound value violates the constraints *)
+(* validation fails start-up exactly when the bound value of SOME property violates its constraints *)
 Definition validate_oracle (c : case) : bool :=
-  if cobs_bound c then Bool.eqb (Nat.eqb (cobs_err c) 1) (cvalidate c && negb (cverdict c))
-  else true.
-
-Definition oracle_case (c : case) : bool :=
-  negb (Nat.eqb (cobs_err c) 3) && negb (Nat.eqb (cobs_err c) 2) && expr_oracle c && validate_oracle c.
-
-Definition nontrivial (c : case) : bool :=
-  match cexpr c with
-  | Some _ => match find_first b_dollar (ctagstr c) with Some _ => true | None => false end
-  | None => cvalidate c && cobs_bound c
+  match cflds c with
+  | [] => true
+  | _ => if forallb fobs_bound (cflds c)
+         then Bool.eqb (Nat.eqb (cobs_err c) 1) (existsb violating (cflds c))
+         else true
   end.
+
+(* a lazy component nobody asks for is never created: its fields bind nothing and cannot fail start-up *)
+Definition oracle_case (c : case) : bool :=
+  negb (Nat.eqb (cobs_err c) 3) && negb (Nat.eqb (cobs_err c) 2) &&
+  (if ccreated c then forallb (expr_oracle c) (cflds c) && validate_oracle c
+   else Nat.eqb (cobs_err c) 0 && forallb (fun f => negb (fobs_bound f)) (cflds c)).
+
+Definition nontrivial_fld (f : fld) : bool :=
+  match fexpr f with
+  | Some _ => match find_first b_dollar (ftagstr f) with Some _ => true | None => false end
+  | None => fvalidate f && fobs_bound f
+  end.
+Definition nontrivial (c : case) : bool := existsb nontrivial_fld (cflds c).
 
 Definition mismatches (cs : list case) : list nat :=
   map cid (filter (fun c => negb (check_case c)) cs).
@@ -220,7 +293,7 @@ Definition violations (cs : list case) : list nat :=
 Definition count_nontrivial (cs : list case) : list nat :=
   [length (filter nontrivial cs)].
 Definition count_validate_fail (cs : list case) : list nat :=
-  [length (filter (fun c => cvalidate c && cobs_bound c && negb (cverdict c)) cs)].
+  [length (filter (fun c => existsb (fun f => fvalidate f && fobs_bound f && negb (fverdict f)) (cflds c)) cs)].
 
 (* known-finding classes (computed on the oracle tables, i.e. on the input side):
      1  the expression's result does not survive FormatAny -> ParseAny (a string whose text reads as
@@ -236,16 +309,21 @@ Definition roundtrip_ok (v : cval) : bool :=
   | _ => false
   end.
 
-Definition kf_class (c : case) : nat :=
-  match cexpr c with
+Definition kf_class_fld (f : fld) : nat :=
+  match fexpr f with
   | Some u =>
-    match evals_get u (cevals c) with
+    match evals_get u (fevals f) with
     | Ok (VStr []) => 2%nat
     | Ok v => if roundtrip_ok v then 0%nat else 1%nat
     | _ => 0%nat
     end
   | None => 0%nat
   end.
+
+Fixpoint first_nonzero (l : list nat) : nat :=
+  match l with [] => 0%nat | O :: r => first_nonzero r | k :: _ => k end.
+
+Definition kf_class (c : case) : nat := first_nonzero (map kf_class_fld (cflds c)).
 
 Definition kf_codes (cs : list case) : list nat :=
   flat_map (fun c => if oracle_case c then [] else
